@@ -100,6 +100,15 @@ fn bye() -> RtcpPacket {
     RtcpPacket::Goodbye(Goodbye { sources: vec![0x1111_2222, 0x3333_4444], reason: Some("bye".into()) })
 }
 
+/// One RTCP packet with the P bit set and four octets of RFC 3550 padding appended.
+fn pad4(mut b: Vec<u8>) -> Vec<u8> {
+    b[0] |= 0x20;
+    let words = u16::from_be_bytes([b[2], b[3]]) + 1;
+    b[2..4].copy_from_slice(&words.to_be_bytes());
+    b.extend_from_slice(&[0, 0, 0, 4]);
+    b
+}
+
 pub fn rtcp(tpl: &str) -> Vec<u8> {
     let m = |p: &[RtcpPacket]| marshal_rtcp_packets(p).unwrap();
     match tpl {
@@ -137,11 +146,18 @@ pub fn rtcp(tpl: &str) -> Vec<u8> {
         "rtcp.compound" => m(&[sr(), sdes(), bye()]),
         "rtcp.padded" => {
             // the encoder never pads; RFC 3550 padding added by hand on top of its output
-            let mut b = m(&[RtcpPacket::ReceiverReport(ReceiverReport { sender_ssrc: 0x1111_2222, report_blocks: vec![rb(7)] })]);
-            b[0] |= 0x20;
-            let words = u16::from_be_bytes([b[2], b[3]]) + 1;
-            b[2..4].copy_from_slice(&words.to_be_bytes());
-            b.extend_from_slice(&[0, 0, 0, 4]);
+            pad4(m(&[RtcpPacket::ReceiverReport(ReceiverReport { sender_ssrc: 0x1111_2222, report_blocks: vec![rb(7)] })]))
+        }
+        "rtcp.compound_padlast" => {
+            // RR, then a PLI with four octets of padding (the last packet of a compound carries the padding)
+            let mut b = rtcp("rtcp.rr");
+            b.extend(pad4(rtcp("rtcp.pli")));
+            b
+        }
+        "rtcp.compound_padmid" => {
+            // a padded RR that is not the last packet
+            let mut b = rtcp("rtcp.padded");
+            b.extend(rtcp("rtcp.pli"));
             b
         }
         _ => panic!("unknown rtcp template {tpl}"),
